@@ -29,6 +29,8 @@ REPLAY_DIR = os.environ.get("VERIF_REPLAY_DIR") or os.path.join(VERIF_DIR, "repl
 EVIDENCE_DIR = os.path.join(VERIF_DIR, "evidence")
 KNOWN_FILE = os.path.join(VERIF_DIR, "known_findings.json")
 
+SET_CAP = 2_000_000   # distinct-state / distinct-history sets stop growing here (reported as a lower bound)
+
 EXIT_OK, EXIT_VIOLATION, EXIT_HARNESS, EXIT_NOT_REPRODUCED = 0, 1, 2, 3
 
 
@@ -186,7 +188,9 @@ def work_chunk(args):
     faulthandler.cancel_dump_traceback_later()
     agg["digest"] = agg["digest"].hexdigest()[:16]
     # sets of tuples pickle fine; shrink states to stable short hashes
-    agg["states"] = {hashlib.sha256(repr(s).encode("utf-8", "surrogatepass")).hexdigest()[:12] for s in agg["states"]}
+    agg["states"] = {int.from_bytes(hashlib.sha256(repr(s).encode("utf-8", "surrogatepass")).digest()[:7], "big") for s in agg["states"]}
+    agg["shapes"] = {int(x, 16) for x in agg["shapes"]}
+    agg["nontrivial_shapes"] = {int(x, 16) for x in agg["nontrivial_shapes"]}
     return agg
 
 
@@ -289,7 +293,7 @@ def run_check(prop, machine, tier, verif_seed, total_runs, chunk, budget_s, run_
 
         def submit_more():
             nonlocal truncated
-            while len(pending) < workers * 2:
+            while len(pending) < workers + 2:
                 if time.time() - t0 > budget_s:
                     truncated = True
                     return
@@ -327,6 +331,7 @@ def run_check(prop, machine, tier, verif_seed, total_runs, chunk, budget_s, run_
         "precondition_miss": 0, "skipped": 0, "viol_count": Counter(), "samples": [],
     }
     violations = {}
+    saturated = set()
     dg = hashlib.sha256()
     last_index = -1
     for s in sorted(results):
@@ -336,7 +341,10 @@ def run_check(prop, machine, tier, verif_seed, total_runs, chunk, budget_s, run_
         for k in ("faults", "faults_eff", "probes", "viol_count"):
             tot[k].update(r[k])
         for k in ("states", "shapes", "nontrivial_shapes"):
-            tot[k] |= r[k]
+            if len(tot[k]) < SET_CAP:
+                tot[k] |= r[k]
+            else:
+                saturated.add(k)
         if len(tot["samples"]) < 3:
             tot["samples"].extend(r["samples"][: 3 - len(tot["samples"])])
         dg.update(r["digest"].encode())
@@ -400,7 +408,7 @@ def run_check(prop, machine, tier, verif_seed, total_runs, chunk, budget_s, run_
         "tot": tot, "digest": dg.hexdigest()[:16], "last_index": last_index,
         "truncated": truncated, "requested_runs": total_runs, "workers": workers,
         "known_hit": known_hit, "new_violations": [(s, p) for (s, *_), p in zip(new_viol, replay_paths)],
-        "harness_errors": len(harness_errors), "exit_code": exit_code,
+        "harness_errors": len(harness_errors), "exit_code": exit_code, "saturated": sorted(saturated),
     }
     if write_evidence:
         evidence.write(summary, evidence_extra)
